@@ -438,18 +438,28 @@ def _corr_generic(cmd, prop, model_text, per_quick, per_thorough, shards_quick=8
 
         def gen(i):
             out = os.path.join(wd, "cases_%s_%s_%d.v" % (prop, cmd, i))
-            p = run([hbin, cmd, "--seed", str(seed), "--from", str(i * per), "--to", str((i + 1) * per), "--out", out], timeout=900)
+            argv = [hbin, cmd, "--seed", str(seed), "--from", str(i * per), "--to", str((i + 1) * per), "--out", out]
+            p = run(argv, timeout=900, check=False)
+            if p.returncode != 0:
+                text = p.stdout or ""
+                if "panic:" in text or "fatal error:" in text or "goroutine " in text:
+                    # the engine took the harness process down while the cases were recorded: that is a
+                    # failing input (the command), not a failure of the check
+                    return None, {"crash": {"command": " ".join(argv), "output": text[-3000:]}}
+                raise CheckError("command failed (%d): %s\n%s" % (p.returncode, " ".join(argv), text[-4000:]))
             return out, json.loads(p.stdout.strip().splitlines()[-1])
 
         from concurrent.futures import ThreadPoolExecutor
         with ThreadPoolExecutor(max_workers=16) as ex:
             outs = list(ex.map(gen, range(shards)))
+        crashed = [st["crash"] for o, st in outs if o is None]
+        outs = [(o, st) for o, st in outs if o is not None]
         tot = {}
         for _, st in outs:
             for k, v in st.items():
                 tot[k] = tot.get(k, 0) + v
         res = eval_case_files([o for o, _ in outs])
-        bad = []
+        bad = [{"process_crash_while_recording_cases": c} for c in crashed]
         for r in res:
             if not r["ok"]:
                 bad.append({"file": r["file"], "error": r["log"][-800:]})
@@ -625,7 +635,7 @@ def check_C14(tier, seed, replay=None):
                          "when the log reaches a scripted length, random yields; the log of observable events must be accepted by "
                          "ConcTrace.accepts (the labelled transition system refining Conc.steps) and no goroutine may outlive the run",
                          150, 1500, shards_quick=8, shards_thorough=16)
-    return ref_family_check("C14", tier, seed, [("cancel", "", 500), ("cancelstress", "", 16)],
+    return ref_family_check("C14", tier, seed, [("cancel", "", 900), ("cancelstress", "", 16)],
                             [("cancel", "", 10000), ("cancelstress", "", 400)], corr=corr)
 
 
